@@ -205,8 +205,8 @@ def lib_parse(s, **kw):
 
 
 # --------------------------------------------------------------------------- parallel map over cases (fork pool)
-def pmap(fn, items, procs=16, chunksize=64):
-    if len(items) < 400 or procs <= 1:
+def pmap(fn, items, procs=16, chunksize=64, force=False):
+    if (len(items) < 400 and not force) or procs <= 1:
         return [fn(x) for x in items]
     import multiprocessing as mp
     ctx = mp.get_context("fork")
